@@ -125,6 +125,7 @@ def r19_1(ctx):
         for a, b in (ints, ints[::-1]):
             env = {"finish_margin": Poly.sym("m"), tname: Poly.sym("T"), sname: E(enum, members[0]), prevs[0]: (E(enum, members[1])),
                    a: Poly.const(-1), b: Poly.const(-1)}
+            env = {**{k: v for k, v in names.items() if k not in env}, **env}  # other prologue locals (lookup tables ...) are in scope too
             env.update({k: ListV([], True, "list") for k in lists})
             o = run_cell(ctx, f, lp.body, env)
             if len(o) == 1 and o[0][0].env.get(a) == Poly.sym("T") and o[0][0].env.get(b) == Poly.const(-1):
@@ -139,6 +140,7 @@ def r19_1(ctx):
                     env = {"finish_margin": Poly.sym("m"), tname: Poly.sym("T"), sname: E(enum, cur),
                            prevs[0]: (Const(None) if prev == "<none>" else E(enum, prev)),
                            from_name: (Poly.sym("F") if known else Poly.const(-1)), to_name: Poly.const(-1)}
+                    env = {**{k: v for k, v in names.items() if k not in env}, **env}  # other prologue locals (lookup tables ...) are in scope too
                     env.update({k: ListV([], True, "list") for k in lists})
                     outs = run_cell(ctx, f, lp.body, env)
                     cellkey = (prev, cur, known)
@@ -174,6 +176,7 @@ def r19_1(ctx):
         for prev in members:
             for known in (False, True):
                 env = {"finish_margin": Poly.sym("m"), tname: Poly.sym("L"), prevs[0]: E(enum, prev), from_name: (Poly.sym("F") if known else Poly.const(-1)), to_name: Poly.const(-1)}
+                env = {**{k: v for k, v in names.items() if k not in env}, **env}  # other prologue locals (lookup tables ...) are in scope too
                 env.update({k: ListV([], True, "list") for k in lists})
                 outs = run_cell(ctx, f, post, env)
                 for st, ex in outs:
@@ -210,48 +213,68 @@ def r19_1(ctx):
 
 
 def r19_2(ctx):
-    ctx.begin("R19.2", "chart rows: Start = init + start*unit, Finish = init + (start+length)*unit", floor=8)
-    n = 0
-    for cls in (TASK, COMPONENT, TEAM, WORKPLACE):
+    """Interpret each create_data_for_gantt_plotly on one object whose interval lists hold one symbolic interval per kind
+    (S_k, N_k): the rows that come back must be init + S_k*unit .. init + (S_k+N_k)*unit, labelled with the kind's state,
+    and a kind switched off by its view_* flag must not appear.  How the rows are assembled does not matter."""
+    ctx.begin("R19.2", "chart rows: Start = init + start*unit, Finish = init + (start+length)*unit, label = the list's state, view flags honoured", floor=8)
+    from ..interp import DictV
+    LABEL = {"ready": "READY", "working": "WORKING", "absence": "ABSENCE"}
+    I_, U_ = Poly.sym("I"), Poly.sym("U")
+    for cls, coll, ecls, kinds in ((TASK, None, None, ("ready", "working")), (COMPONENT, None, None, ("ready", "working")),
+                                   (TEAM, "self.worker_list", WORKER, ("ready", "working", "absence")),
+                                   (WORKPLACE, "self.facility_list", FACILITY, ("ready", "working", "absence"))):
         f = ctx.repo.method(cls, "create_data_for_gantt_plotly")
-        pm = parent_map(f.node)
-        for d in ast.walk(f.node):
-            if not isinstance(d, ast.Dict):
-                continue
-            keys = {k.value: v for k, v in zip(d.keys, d.values) if isinstance(k, ast.Constant)}
-            if "Start" not in keys or "Finish" not in keys:
-                continue
-            n += 1
-            loop = enclosing(pm, d, (ast.For,))
-            ctx.require(loop is not None and isinstance(loop.target, ast.Tuple) and len(loop.target.elts) == 2, f"{cls} chart row not inside a `for start, length in ...` loop")
-            s_name, l_name = loop.target.elts[0].id, loop.target.elts[1].id
-            env = {s_name: normalise(ast.Name(id="S")), l_name: normalise(ast.Name(id="N"))}
-            for st in loop.body:
-                if isinstance(st, ast.Assign) and len(st.targets) == 1 and isinstance(st.targets[0], ast.Name):
-                    env[st.targets[0].id] = normalise(st.value, env)
-            p_init, p_unit = f.params[1], f.params[2]
-            env[p_init] = normalise(ast.Name(id="I"))
-            env[p_unit] = normalise(ast.Name(id="U"))
+        lists = ListV([ListV([ListV([Poly.sym("S_" + k), Poly.sym("N_" + k)], True, "tuple")], True, "list") for k in kinds], True, "tuple")
 
-            def strip(v):
-                if isinstance(v, ast.Call) and isinstance(v.func, ast.Attribute) and v.func.attr == "strftime":
-                    return v.func.value
-                return v
-            gs, gf = normalise(strip(keys["Start"]), env), normalise(strip(keys["Finish"]), env)
-            I_, U_, S_, N_ = (normalise(ast.Name(id=x)) for x in "IUSN")
-            ws, wf = I_ + S_ * U_, I_ + (S_ + N_) * U_
-            con = construct(f, f"row-{n}")
-            ctx.instance(con, sample={"start": repr(gs), "finish": repr(gf)})
-            if gs != ws:
-                ctx.violation(construct(f, "row-start"), f.loc(d), f"{cls} chart row: Start is `{gs!r}` (expected init + start*unit)")
-            if gf != wf:
-                ctx.violation(construct(f, "row-finish"), f.loc(d), f"{cls} chart row: Finish is `{gf!r}` (expected init + (start+length)*unit)")
-            src = enclosing(pm, d, (ast.For,)).iter
-            state_lbl = keys.get("State")
-            if isinstance(src, ast.Name) and isinstance(state_lbl, ast.Constant):
-                want = {"ready": "READY", "working": "WORKING", "absence": "ABSENCE"}.get(list_kind(src.id))
-                if want and state_lbl.value != want:
-                    ctx.violation(construct(f, "row-label"), f.loc(d), f"{cls} chart rows built from `{src.id}` are labelled {state_lbl.value!r}")
+        def hook(I, call, st, fr):
+            if isinstance(call.func, ast.Attribute) and call.func.attr == "get_time_list_for_gannt_chart":
+                return lists
+            if isinstance(call.func, ast.Attribute) and call.func.attr == "strftime":
+                return I.eval(call.func.value, st, fr)
+            return None
+        flags = [p for p in f.params if p.startswith("view_")]
+        for combo in itertools.product((True, False), repeat=len(flags)):
+            bind = {"init_datetime": I_, "unit_timedelta": U_, "finish_margin": Poly.sym("m")}
+            bind.update({p: Const(v) for p, v in zip(flags, combo)})
+            I = mk_interp(ctx, call_hook=hook, collections=({coll: [Obj("E", ecls)]} if coll else {}))
+            outs = I.run_function(f, bind=bind)
+            for st, ex in outs:
+                if ex is not None and ex[0] == "raise":
+                    continue
+                r = ex[1] if ex is not None and ex[0] == "return" else None
+                con = construct(f, "rows:" + ",".join(f"{p}={v}" for p, v in zip(flags, combo)))
+                if not (isinstance(r, ListV) and all(isinstance(x, DictV) for x in r.items)):
+                    raise AnalysisError(f"R19.2: rows returned by {f.qualname} are not determined: {r!r}")
+                rows = []
+                for d in r.items:
+                    ent = {k.v: v for k, v, _r in d.entries if isinstance(k, Const)}
+                    rows.append(ent)
+                ctx.instance(con, cells=len(rows), sample={"rows": len(rows)})
+                for k in kinds:
+                    Sk, Nk = Poly.sym("S_" + k), Poly.sym("N_" + k)
+                    mine = [e for e in rows if isinstance(e.get("Start"), Poly) and ("S_" + k) in repr(e["Start"]) or isinstance(e.get("Finish"), Poly) and ("S_" + k) in repr(e["Finish"])]
+                    flag = next((p for p in flags if p == "view_" + k), None)
+                    shown = True if flag is None else dict(zip(flags, combo))[flag]
+                    if not shown:
+                        if mine:
+                            ctx.violation(construct(f, f"row-flag:{k}"), f.loc(), f"{cls} chart shows the {k} intervals although {flag}=False")
+                        continue
+                    if len(mine) != 1:
+                        ctx.violation(construct(f, f"row-count:{k}"), f.loc(), f"{cls} chart builds {len(mine)} rows from one {k} interval (expected exactly one)")
+                        continue
+                    e = mine[0]
+                    if e.get("Start") != I_ + Sk * U_:
+                        ctx.violation(construct(f, "row-start"), f.loc(), f"{cls} chart row ({k}): Start is `{e.get('Start')!r}` (expected init + start*unit)")
+                    if e.get("Finish") != I_ + (Sk + Nk) * U_:
+                        ctx.violation(construct(f, "row-finish"), f.loc(), f"{cls} chart row ({k}): Finish is `{e.get('Finish')!r}` (expected init + (start+length)*unit)")
+                    lbl = e.get("State")
+                    if isinstance(lbl, Const) and lbl.v != LABEL[k]:
+                        ctx.violation(construct(f, "row-label"), f.loc(), f"{cls} chart rows built from the {k} intervals are labelled {lbl.v!r}")
+                    elif not isinstance(lbl, Const):
+                        raise AnalysisError(f"R19.2: State label of a {k} row in {f.qualname} is not determined: {lbl!r}")
+                extra = [e for e in rows if not any(("S_" + k) in repr(e.get("Start")) + repr(e.get("Finish")) for k in kinds)]
+                if extra:
+                    ctx.violation(construct(f, "row-foreign"), f.loc(), f"{cls} chart has a row that is not built from one of the interval lists: Start `{extra[0].get('Start')!r}`")
     ctx.end()
 
 
